@@ -384,3 +384,24 @@ def describe(c):
     return {"kind": "bufwriter", "cap": c[1],
             "oracle": ["err" if r[0] else "acc %d" % r[1] for r in c[2]],
             "ops": [["write_all", "write", "flush"][op[0]] + (" %d" % len(op[1]) if op[0] < 2 else "") for op in c[3]]}
+
+
+def extra_checks(ctx, cases, impl_lines, model_lines):
+    """file appenders DECLARED IN CONFIGURATION FILES (C14's renderings: YAML / JSON / TOML, `append` given,
+    null or omitted, files pre-populated): the open mode and what lands in the file must be those of the
+    programmatic configuration"""
+    from gen import xcheck
+
+    def has_file_appender(c):
+        # a rendering (not a mutant document) with a `file` appender whose `append` key is omitted or null
+        try:
+            from gen import c14
+            if c[5] != "render":
+                return False
+            doc = c14.dec_tree(c[0])
+            apps = doc.get("appenders") or {}
+            return any(isinstance(a, dict) and a.get("kind") == "file" and a.get("append") is None
+                       for a in apps.values())
+        except Exception:
+            return False
+    return xcheck.borrow(ctx, "C14", "a file appender declared in a configuration file", has_file_appender, n=60)
